@@ -133,7 +133,7 @@ func baseTrx(cons bool, over ...string) *pb.Transaction {
 	for i := 0; i+1 < len(over); i += 2 {
 		tok[s.idx[over[i]]] = over[i+1]
 	}
-	return buildTrx(s.getter(shape{tok: tok}), "", cons)
+	return buildTrx(s.getter(s.shapeOf(tok)), "", cons)
 }
 
 // buildWorld resets the two process-wide nodes and constructs S0 or S1 (inside a controlled execution).
